@@ -44,7 +44,16 @@ def problems(inst):
                                 zone_tree={"name": "Plant", "type": "Zone", "children": [
                                     {"name": "X", "type": "Zone", "children": [{"name": "Y", "type": "Zone"}]},
                                     {"name": "Y", "type": "Zone"}]})))
-    P.append(("options", A.problem([hot, cold], ["D", "D"], options={"DO_BALANCED_CC": False, "DO_VERTICAL_GCC": True, "DT_CONT": 2.5})))
+    # every option that does not switch on a stochastic optimiser carries a NON-default value (also the ones no code path reads today,
+    # e.g. DECIMAL_PLACES as a plain int): an option that leaks into module state or into a later call has to show
+    P.append(("options", A.problem([hot, cold], ["D", "D"], options={
+        "DO_BALANCED_CC": False, "DO_VERTICAL_GCC": True, "DO_ASSITED_HT": True, "DO_EXERGY_TARGETING": True, "DO_DIRECT_OPERATION_TARGETING": True,
+        "DT_CONT": 2.5, "DT_PHASE_CHANGE": 0.2, "HTC": 2.0, "T_ENV": 20.0, "DT_ENV_CONT": 5.0, "P_ENV": 100.0, "DECIMAL_PLACES": 3,
+        "HP_LOAD_FRACTION": 0.5, "REFRIGERANTS": "R134a", "PRICE_RATIO_ELE_TO_FUEL": 2.0, "MAX_HP_MULTISTART": 3, "N_COND": 2, "N_EVAP": 1,
+        "ETA_COMP": 0.6, "ETA_EXP": 0.6, "ETA_HP_CARNOT": 0.4, "ETA_HE_CARNOT": 0.4, "DTMIN_HP": 1.0, "DT_HP_IHX": 1.0,
+        "UTILITY_PRICE": 50.0, "ANNUAL_OP_TIME": 8000.0, "FIXED_COST": 100.0, "VARIABLE_COST": 5000.0, "COST_EXP": 0.7, "DISCOUNT_RATE": 0.1, "SERV_LIFE": 10.0})))
+    # the minimal dictionary: only the mandatory key (no "utilities", no "options", no "zone_tree")
+    P[0] = ("plain", {"streams": P[0][1]["streams"]})
     return P
 
 
